@@ -383,14 +383,17 @@ class SccContext:
       # Erase buffered caption
       self.new_buffered_caption()
 
-    elif control_code is SccControlCode.TO1:
-      self.get_caption_to_process().indent_cursor(1)
+    elif control_code in (SccControlCode.TO1, SccControlCode.TO2, SccControlCode.TO3):
+      processed_caption = self.get_caption_to_process()
 
-    elif control_code is SccControlCode.TO2:
-      self.get_caption_to_process().indent_cursor(2)
-
-    elif control_code is SccControlCode.TO3:
-      self.get_caption_to_process().indent_cursor(3)
+      if processed_caption is None:
+        LOGGER.warning("Tab offset received while no caption is being processed at %s", time_code)
+      elif control_code is SccControlCode.TO1:
+        processed_caption.indent_cursor(1)
+      elif control_code is SccControlCode.TO2:
+        processed_caption.indent_cursor(2)
+      else:
+        processed_caption.indent_cursor(3)
 
     elif control_code is SccControlCode.CR:
       # Roll the displayed caption up one row (Roll-Up)
